@@ -21,6 +21,31 @@ def evalOp (op : String) (d field : Bytes) : Bool :=
   | some o => evalLitOp o d field
   | none => false
 
+
+/-- the candidate values of a bolt case; a trailing `E` stands for an extra entity with id `~E` and an empty name -/
+def splitExtra (flds : List String) : List String × Bool :=
+  match flds.reverse with
+  | "E" :: rest => (rest.reverse, true)
+  | _ => (flds, false)
+
+/-- membership bits of the two answers (`id <op> lit`, `name <op> lit`) of a bolt case -/
+def boltAns (op : String) (d : Bytes) (flds : List String) : String :=
+  let (vals, extra) := splitExtra flds
+  let one (f : String) := match Bytes.ofHex f with
+    | some fv => evalOp op d fv
+    | none => false
+  let base := vals.map one
+  let idBits := if extra then base ++ [evalOp op d [126, 69]] else base
+  let nameBits := if extra then base ++ [evalOp op d []] else base
+  bits idBits ++ " " ++ bits nameBits
+
+/-- `f = a or f = b`, `f in [a, b]`, `f != a and f != b` on the denoted strings -/
+def evalTwo (form : String) (a b field : Bytes) : Bool :=
+  match form with
+  | "or" => field == a || field == b
+  | "in" => field == a || field == b
+  | _ => field != a && field != b
+
 def step (line : String) : String :=
   match splitSp line with
   | ["u", lit, _s] =>
@@ -36,26 +61,22 @@ def step (line : String) : String :=
         | none => false)
     | none => "bad-case"
   | "b" :: op :: lit :: _s :: flds =>
-    -- a bolt store with one entity per value (id = name = value): the answers to `id <op> lit`
-    -- and `name <op> lit`
     match Bytes.ofHex lit with
-    | some l =>
-      let d := unescape Generated.unescapeTable l
-      let b := bits (flds.map fun f => match Bytes.ofHex f with
-        | some fv => evalOp op d fv
-        | none => false)
-      b ++ " " ++ b
+    | some l => boltAns op (unescape Generated.unescapeTable l) flds
     | none => "bad-case"
   | "c" :: op :: lit :: _s :: lit2 :: _s2 :: flds =>
-    -- two literals queried one after the other on the same store: four answers
     match Bytes.ofHex lit, Bytes.ofHex lit2 with
     | some l, some l2 =>
-      let ans (l : Bytes) :=
-        let d := unescape Generated.unescapeTable l
-        bits (flds.map fun f => match Bytes.ofHex f with
-          | some fv => evalOp op d fv
-          | none => false)
-      ans l ++ " " ++ ans l ++ " " ++ ans l2 ++ " " ++ ans l2
+      boltAns op (unescape Generated.unescapeTable l) flds ++ " " ++ boltAns op (unescape Generated.unescapeTable l2) flds
+    | _, _ => "bad-case"
+  | "d" :: form :: lit :: _s :: lit2 :: _s2 :: flds =>
+    match Bytes.ofHex lit, Bytes.ofHex lit2 with
+    | some l, some l2 =>
+      let a := unescape Generated.unescapeTable l
+      let b := unescape Generated.unescapeTable l2
+      bits (flds.map fun f => match Bytes.ofHex f with
+        | some fv => evalTwo form a b fv
+        | none => false)
     | _, _ => "bad-case"
   | _ => "bad-case"
 
@@ -71,19 +92,18 @@ def specStep (line : String) : String :=
     | none => "bad-case"
   | "b" :: op :: _lit :: s :: flds =>
     match Bytes.ofHex s with
-    | some d =>
-      let b := bits (flds.map fun f => match Bytes.ofHex f with
-        | some fv => evalOp op d fv
-        | none => false)
-      b ++ " " ++ b
+    | some d => boltAns op d flds
     | none => "bad-case"
   | "c" :: op :: _lit :: s :: _lit2 :: s2 :: flds =>
     match Bytes.ofHex s, Bytes.ofHex s2 with
-    | some d, some d2 =>
-      let ans (d : Bytes) := bits (flds.map fun f => match Bytes.ofHex f with
-          | some fv => evalOp op d fv
-          | none => false)
-      ans d ++ " " ++ ans d ++ " " ++ ans d2 ++ " " ++ ans d2
+    | some d, some d2 => boltAns op d flds ++ " " ++ boltAns op d2 flds
+    | _, _ => "bad-case"
+  | "d" :: form :: _lit :: s :: _lit2 :: s2 :: flds =>
+    match Bytes.ofHex s, Bytes.ofHex s2 with
+    | some a, some b =>
+      bits (flds.map fun f => match Bytes.ofHex f with
+        | some fv => evalTwo form a b fv
+        | none => false)
     | _, _ => "bad-case"
   | _ => "bad-case"
 
